@@ -90,6 +90,8 @@ func (f *vfile) Write(p Slice) (int, error) {
 		for _, c := range p.A[:n] {
 			f.node.data = append(f.node.data, copyVal(c))
 		}
+		f.in.X.noteInput("fault.armed", 1)
+		f.in.X.noteInput("fault.offset", uint64(len(f.node.data)))
 		return n, errInjected
 	}
 	for _, c := range p.A {
@@ -254,6 +256,10 @@ func init() {
 	}
 	intrinsics[H("vFSFailWrites")] = func(in *Interp, fr *frame, args []Value) Value {
 		in.ghost.vfs.faultOn[args[0].(string)] = true
+		return nil
+	}
+	intrinsics[H("vFSDisarm")] = func(in *Interp, fr *frame, args []Value) Value {
+		in.ghost.vfs.faultOn = map[string]bool{}
 		return nil
 	}
 	intrinsics[H("vFSFaulted")] = func(in *Interp, fr *frame, args []Value) Value {
